@@ -88,6 +88,11 @@ CHECKS.update({
          'Model-based generated histories with the harness owning the clock (advance to just before / at / just after next_sync_timing); thousands (quick) to ~10^5 (thorough) histories.',
          'Trusts the model in pbt/checks/c18_svs.py; single-node safety only.', '6/C18'),
 })
+CHECKS.update({
+ 'C15': ('Hypothesis-generated keychain operation histories (incl. reopen, every get_signer argument form) with storage-failure injection at the k-th internal database / private-key-store step and optional crash, plus exhaustive enumeration of every failing step of every operation kind; oracle: dict model, Mapping laws per view scoped to the owner, defaults, signature verification under the model-selected key, post-fault invariants and repeatability',
+         'Model-based generated histories + fault enumeration: every step index of 12 operation kinds is failed once with and once without a crash; histories are sampled.',
+         'Trusts the dict model and raw-table reader in pbt/checks/c15_keychain.py; faults at API-step granularity; key material from a committed pool.', '6/C15'),
+})
 NOT_YET = {}
 def main():
     props = [json.loads(l) for l in open(os.path.join(ROOT, 'properties.jsonl'))]
